@@ -28,7 +28,21 @@ for l in open('/verif/properties.jsonl'):
         except OSError:
             continue
         files = sorted(set(re.findall(r'^\+\+\+ b/(.*)$', diff, re.M)))
-        funcs = sorted(set(re.findall(r'^@@.*@@ func (?:\([^)]*\) )?(\w+)', diff, re.M)))
+        # the function that encloses each changed line: the hunk header names the function
+        # *preceding* the hunk's first line, so a func declaration inside the hunk wins
+        funcs, cur = set(), None
+        for dl in diff.splitlines():
+            m = re.match(r'^@@.*@@ func (?:\([^)]*\) )?(\w+)', dl)
+            if m:
+                cur = m.group(1); continue
+            if dl.startswith('@@'):
+                cur = None; continue
+            m = re.match(r'^[ +-]func (?:\([^)]*\) )?(\w+)', dl)
+            if m:
+                cur = m.group(1)
+            if (dl.startswith('+') or dl.startswith('-')) and not dl.startswith(('+++', '---')) and cur:
+                funcs.add(cur)
+        funcs = sorted(funcs)
         taken.append('  - a change in %s (around %s)' % (', '.join(files), ', '.join(funcs) or 'top of file'))
     if not os.path.exists(f'{wt}/{pid}'):
         subprocess.run(['git', '-C', '/repo', 'worktree', 'add', '-q', '--detach', f'{wt}/{pid}', 'HEAD'], check=True)
